@@ -27,7 +27,9 @@ DMAX = H.P('dmax', 3)                    # results demanded: 0..DMAX
 IMAX = H.P('imax', 2)                    # integer arguments: 0..IMAX
 DEPTH = H.P('depth', 1)
 KMAX = H.P('kmax')                       # lambda constants in -1..KMAX (None: unbounded)
-ENG = yq.ENG_RAW
+LIMIT = H.P('limit')                     # yaql.limitIterators of the engine (None: library default -1)
+ENG = yq.ENG_RAW if LIMIT is None else yq.FACTORY.create(
+    options={'yaql.convertOutputData': False, 'yaql.limitIterators': LIMIT})
 
 FUNCTIONS_ENCODED = [
     'yaql.language.runner.call/choose_overload', 'yaql.language.specs.FunctionDefinition.map_args/get_delegate',
@@ -40,10 +42,12 @@ BOUNDS = {
              'by a symbolic selector among a VERIF_SEED-rotated seventh of the table (constants there in -1..3); source = endless counting iterator 0,1,2,... with budget 12; '
              'results demanded k in 0..3 (symbolic), integer arguments in 0..2 (symbolic), lambda constants unbounded '
              'symbolic ints restricted only by "the ideal pipeline terminates within the budget"; call API with counting '
-             'Python lambdas; every single operator also as YAQL text with tick($) lambdas (budget 8, k<=2, ints<=1)',
+             'Python lambdas; every single operator also as YAQL text with tick($) lambdas (budget 8, k<=2, ints<=1); '
+             'every single operator and the pipelines that start with a memorized iterator (memorize, let-bound '
+             'memorize, defaultIfEmpty, assert) also under an engine with yaql.limitIterators=50 (not reached)',
     'thorough': 'all 2-operator pipelines (call API and YAQL text), 3- and 4-operator pipelines with every later '
                 'operator chosen by symbolic selectors (k in 0..2, ints in 0..1), budget 14'}
-OUTSIDE = ['operators that materialise by definition (orderBy, groupBy, reverse, last, splitAt, toList, ...)',
+OUTSIDE = ['a yaql.limitIterators limit that is actually reached (C08)', 'operators that materialise by definition (orderBy, groupBy, reverse, last, splitAt, toList, ...)',
            "join's inner side", 'sources whose values are not the ascending integers (values are concrete, the demand, '
            'the integer arguments, the lambda constants and the pipeline shape are symbolic)',
            'pipelines longer than 4 operators']
@@ -119,10 +123,12 @@ CTX.register_function(_tick)
 # ------------------------------------------------------------------------------------------------ operator table
 class Op:
     def __init__(self, name, text, api, ideal, needs_int=True, out_int=True, terminal=False, uses=(), dict_src=False,
-                 closed=None):
+                 closed=None, wrap=None):
         self.name, self.text, self.api, self.ideal = name, text, api, ideal
         self.needs_int, self.out_int, self.terminal, self.uses = needs_int, out_int, terminal, uses
         self.dict_src = dict_src
+        self.wrap = wrap            # first-stage only: text template around the source expression
+        self.first_only = dict_src or wrap is not None
         self.closed = closed        # closed-form pull count on the raw source (searches)
 
 
@@ -270,6 +276,12 @@ OPS = [
        lambda it, a: g_insert_many(it, a['i'], a['k']), needs_int=False, uses=('i', 'k')),
     Op('replaceMany', 'replaceMany($i%d, [$k%d], $j%d)', lambda x, a: M('replaceMany', x, a['i'], (a['k'],), a['j']),
        lambda it, a: g_replace(it, a['i'], a['k'], a['j']), needs_int=False, uses=('i', 'j', 'k')),
+    # operators that hand on a memorized iterator (utils.memorize): defaultIfEmpty, assert, a let-bound memorize
+    Op('defaultIfEmpty', 'defaultIfEmpty([0])', lambda x, a: M('defaultIfEmpty', x, (0,)), lambda it, a: it,
+       needs_int=False),
+    Op('assert', 'assert(true)', lambda x, a: M('assert', x, lambda o: True), lambda it, a: it, needs_int=False),
+    Op('memorize.let', '', lambda x, a: M('memorize', x), lambda it, a: it, needs_int=False,
+       wrap='let(mm => %s.memorize()) -> $mm'),
     # member projection: only as first operator, over the dictionary source
     Op('projection', 'a', lambda x, a: yq.ROOT('#operator_.', ENG)(x, yexpr.KeywordConstant('a')),
        lambda it, a: (d['a'] for d in it), needs_int=False, dict_src=True),
@@ -310,8 +322,8 @@ def g_insert_many(it, pos, val):
 
 NOPS = len(OPS)
 NAMES = [o.name for o in OPS]
-STREAMING = [n for n, o in enumerate(OPS) if not o.terminal and not o.dict_src]
-LATER = [n for n, o in enumerate(OPS) if not o.dict_src]          # what may follow a first operator
+STREAMING = [n for n, o in enumerate(OPS) if not o.terminal and not o.first_only]
+LATER = [n for n, o in enumerate(OPS) if not o.first_only]          # what may follow a first operator
 S_SETS = {}
 for _d in (2, 3, 4):
     S_SETS[_d] = H.P('s%dset' % _d) or LATER
@@ -322,7 +334,7 @@ def valid(sels):
     ints = True
     for pos, s in enumerate(sels):
         o = OPS[s]
-        if o.dict_src and pos != 0:
+        if o.first_only and pos != 0:
             return False
         if o.terminal and pos != len(sels) - 1:
             return False
@@ -384,6 +396,9 @@ def run_ideal(sels, demand, ints, consts, budget):
 def pipe_text(sels):
     parts = ['$sd' if OPS[sels[0]].dict_src else '$s']
     for pos, s in enumerate(sels):
+        if OPS[s].wrap:
+            parts = [OPS[s].wrap % parts[0]]
+            continue
         t = OPS[s].text
         if '$o' in t:
             t = t.replace('$o', '$o%d' % (pos + 1))
@@ -602,6 +617,48 @@ def conditions(tier, seed):
                             'bounds': '4-operator pipelines $s.%s.%s.<op3>.<op4>, op3 among %s, op4 among %s by symbolic '
                                       'selectors; k in 0..1, ints in 0..1, lambda constants in -1..1'
                                       % (OPS[s1].name, OPS[s2].name, [NAMES[x] for x in t3], [NAMES[x] for x in t4])})
+    # engine-option dimension: a configured yaql.limitIterators that is never reached must not change consumption
+    memo = [NAMES.index(x) for x in ('memorize', 'memorize.let', 'defaultIfEmpty', 'assert')]
+    for lim in ((50,) if quick else (50, 1000)):
+        for s1, o in enumerate(OPS):
+            out.append({'name': 'single[%s|api|limit=%d]' % (o.name, lim), 'func': 'h_pipe', 'timeout': 200,
+                        'twin': False,
+                        'param': {'s1': s1, 'depth': 1, 'mode': 'api', 'budget': budget, 'dmax': 3, 'imax': 2,
+                                  'kmax': 4, 'limit': lim},
+                        'bounds': '$s.%s under an engine with yaql.limitIterators=%d (never reached: budget %d): k in '
+                                  '0..3, ints in 0..2, lambda constants in -1..4; call API' % (
+                                      o.text.replace('%d', ''), lim, budget)})
+        for s1 in memo:
+            if quick:
+                sets = [('seventh%d' % ((seed + s1) % 7), LATER[(seed + s1) % 7::7])]
+            else:
+                sets = [('third%d' % tn, thirds[tn]) for tn in range(3)]
+            for label, s2set in sets:
+                out.append({'name': 'pipe2[%s|%s|limit=%d]' % (OPS[s1].name, label, lim), 'func': 'h_pipe',
+                            'timeout': 200 if quick else 900, 'twin': False,
+                            'param': {'s1': s1, 'depth': 2, 'mode': 'api', 'budget': budget, 'dmax': 2, 'imax': 1,
+                                      'kmax': 3, 's2set': s2set, 'limit': lim},
+                            'bounds': 'memorized iterator handed to a second operator (%s, then op2 by symbolic selector '
+                                      'among %s) under yaql.limitIterators=%d; k in 0..2, ints in 0..1, constants in '
+                                      '-1..3; call API' % (OPS[s1].name, [NAMES[x] for x in s2set], lim)})
+        letset = LATER[(seed + 3) % 7::7] if quick else LATER[::3]
+        out.append({'name': 'pipe2[memorize.let|text|limit=%d]' % lim, 'func': 'h_pipe', 'timeout': 200 if quick else 900,
+                    'twin': False,
+                    'param': {'s1': NAMES.index('memorize.let'), 'depth': 2, 'mode': 'text', 'budget': 8, 'dmax': 2,
+                              'imax': 1, 'kmax': 2, 's2set': letset, 'limit': lim},
+                    'bounds': 'let(mm => $s.memorize()) -> $mm.<op2>, op2 by symbolic selector among %s, under '
+                              'yaql.limitIterators=%d; YAQL text' % ([NAMES[x] for x in letset], lim)})
+    if not quick:
+        for s1 in firsts:
+            if s1 in memo:
+                continue
+            seventh = LATER[(s1 + 3) % 7::7]
+            out.append({'name': 'pipe2[%s|seventh%d|limit=1000]' % (OPS[s1].name, (s1 + 3) % 7), 'func': 'h_pipe',
+                        'timeout': 900, 'twin': False,
+                        'param': {'s1': s1, 'depth': 2, 'mode': 'api', 'budget': budget, 'dmax': 2, 'imax': 1,
+                                  'kmax': 3, 's2set': seventh, 'limit': 1000},
+                        'bounds': '$s.%s.<op2> under yaql.limitIterators=1000, op2 among %s; call API'
+                                  % (OPS[s1].name, [NAMES[x] for x in seventh])})
     return out
 
 
